@@ -266,6 +266,20 @@ def reset_fresh(ctx, rule='C12-R3'):
     rq_events = fx.deep_events(rq)
     stores = [e for e in rq_events if e.kind in ('store',) and T.root(e.base) == G]
     ctx.floor(rule, 'stores to the global in reset_prms', len(stores), 2)
+    # every name of the list is dealt with: the loop over the names is left early only by a refusal - a `return` (or
+    # `break`) inside it ("nothing to reset for this one") leaves the names after it as they were
+    per_name = [e for e in stores if e.loops]
+    if per_name:
+        lid = per_name[0].loops[-1]
+        early = [e for e in rq_events if e.kind == 'return' and not e.ctx and lid in e.loops]
+        node = rf.node
+        import ast as _ast
+        loop_node = fx.deep_loops(rq)[lid].node if lid in fx.deep_loops(rq) else None
+        breaks = [n for n in _ast.walk(loop_node) if isinstance(n, _ast.Break)] if loop_node is not None else []
+        ctx.check(not early and not breaks, rule, rq, (early[0].node if early else (breaks[0] if breaks else node.name)),
+                  early[0].loc() if early else rf.loc(),
+                  'reset_prms leaves the loop over the given names before the last one without refusing: the names '
+                  'after that point are not reset', instance='reset some: every listed name is reset')
     fresh_call = ('call', ('g', gd), (), ())
     for e in stores:
         if e.target == G:
